@@ -318,11 +318,14 @@ INLINE_CONFIGS = {
               # the inline image in the 2nd / 3rd stream of a /Contents array, text after it
               ("later-streams", "AlphaSmall", 1, "{1, 3, 4096}", "KindsTwo", "StylesBoth", "FollAll", "CutsFew", "TRUE", "LeadsAll"),
               # every spelling of the ASCII85 filter x ASCII85 text holding EI + white space / EI at a line break
-              ("a85-text", "AlphaA85Text", 3, "{2, 4096}", "KindsA85", "StylesEol", "FollTwo", "CutsNone", "FALSE", "NoLead")],
+              ("a85-text", "AlphaA85Text", 3, "{2, 4096}", "KindsA85", "StylesEol", "FollTwo", "CutsNone", "FALSE", "NoLead"),
+              # the white-space byte after ID {SP, LF, CR, TAB} x the first data bytes {LF, CR, SP, other} (CR + LF is delimiter + data)
+              ("id-delims", "AlphaFirst", 2, "{1, 3, 4096}", "KindsPlain", "StylesBoth", "FollTwo", "CutsNone", "FALSE", "NoLead")],
     "thorough": [("matcher", "Alpha6", 5, "{1, 2, 3, 7}", "KindsPlain", "StylesBoth", "FollTwo", "CutsNone", "TRUE", "NoLead"),
                  ("dict-and-cuts", "Alpha6", 2, "{1, 2, 3, 5}", "KindsAll", "StylesBoth", "FollAll", "CutsAll", "FALSE", "NoLead"),
                  ("later-streams", "Alpha6", 2, "{1, 3, 4096}", "KindsTwo", "StylesBoth", "FollAll", "CutsAll", "TRUE", "LeadsAll"),
-                 ("a85-text", "AlphaA85Text", 4, "{1, 2, 7, 4096}", "KindsA85", "StylesEol", "FollAll", "CutsNone", "FALSE", "NoLead")],
+                 ("a85-text", "AlphaA85Text", 4, "{1, 2, 7, 4096}", "KindsA85", "StylesEol", "FollAll", "CutsNone", "FALSE", "NoLead"),
+                 ("id-delims", "Alpha6", 3, "{1, 2, 3, 4096}", "KindsTwo", "StylesBoth", "FollTwo", "CutsFew", "FALSE", "NoLead")],
 }
 SPACES = b"\t\n\x0b\x0c\r "
 
@@ -405,7 +408,7 @@ def real_view(err, out):
 def seek_point(rec, dev):
     """absolute offset where get_inline_data starts reading (transcription of SeekTarget)"""
     content = bytes(rec["content"])
-    idpos = content.index(b" ID ") + 1
+    idpos = content.index(b" ID") + 1
     lenpre = idpos + 2
     cp = rec["cutpos"]
     if "SeekOtherStream" in dev:
@@ -441,7 +444,7 @@ def replay_inline(ck, recs, dev, label):
     rp = {"content": content, "bufsiz": B, "cutpos": cp, "lead": lead, "data": bytes(ideal["data"]), "origin": label}
     err, out = R.scan_content(R.lead_streams(lead) + R.split_content(content, cp), B)
     real = real_view(err, out)
-    what = "inline image data %r written as %r (BUFSIZ=%d%s%s)" % (bytes(ideal["data"]), content[content.index(b" ID ") + 4:], B,
+    what = "inline image data %r written as %r (BUFSIZ=%d%s%s)" % (bytes(ideal["data"]), content[content.index(b" ID") + 3:], B,
                                                                       ", next stream from offset %d" % cp if cp else "",
                                                                       ", after streams of %s bytes" % lead if lead else "")
     # validate the transcription used for blame against TLC (both designs)
@@ -490,7 +493,7 @@ def direction_a_inline(ck, dev):
         cfg = write_cfg(os.path.join(ck.tmp, mod + ".cfg"),
                         constants={"Alphabet": "<- " + alpha, "MaxLen": maxlen, "BufSizes": bufs, "DictKinds": "<- " + kinds,
                                    "Styles": "<- " + styles, "Followers": "<- " + foll, "Cuts": "<- " + cuts, "DevChoices": "<- TheDevs",
-                                   "FastDict": fast, "Leads": "<- " + leads},
+                                   "FastDict": fast, "Leads": "<- " + leads, "IDDelims": "<- IDDelimsAll" if label == "id-delims" else "<- OnlySP"},
                         invariants=["DataCapturedExactly", "FollowersUnaffected", "MatcherIsFirstMarker", "BufferInOneStream",
                                     "IndexInRange", "AccIsContiguous", "DictWellFormed"], constraints=["EmitTerminal"])
         emit = os.path.join(ck.tmp, mod + ".ndjson")
@@ -574,7 +577,7 @@ def inline_documents(ck, dev, doc_cases):
 def inline_teeth(ck):
     found = {}
     for d, cuts in (("NoRestart", "CutsNone"), ("DollarNewline", "CutsNone"), ("CRLFUnit", "CutsNone"), ("EOFNotDelim", "CutsNone"),
-                    ("SeekOtherStream", "CutsAll"), ("CumulativeBufpos", "CutsNone"), ("BareNameNoFilter", "CutsNone")):
+                    ("SeekOtherStream", "CutsAll"), ("CumulativeBufpos", "CutsNone"), ("BareNameNoFilter", "CutsNone"), ("IDSkipsCRLF", "CutsNone")):
         mod = "TeethI_%s" % d
         wrapper = os.path.join(ck.tmp, mod + ".tla")
         with open(wrapper, "w") as f:
@@ -583,7 +586,7 @@ def inline_teeth(ck):
                         constants={"Alphabet": "<- AlphaA85Text" if d == "BareNameNoFilter" else "<- Alpha6", "MaxLen": 3 if d == "BareNameNoFilter" else 2,
                                    "BufSizes": "{2}", "DictKinds": "<- KindsA85" if d == "BareNameNoFilter" else "<- KindsPlain", "Styles": "<- StylesBoth",
                                    "Followers": "<- FollTwo", "Cuts": "<- " + cuts, "DevChoices": "<- TheDevs", "FastDict": "TRUE",
-                                   "Leads": "<- LeadsAll" if d == "CumulativeBufpos" else "<- NoLead"},
+                                   "Leads": "<- LeadsAll" if d == "CumulativeBufpos" else "<- NoLead", "IDDelims": "<- IDDelimsAll" if d == "IDSkipsCRLF" else "<- OnlySP"},
                         invariants=["P_DataCapturedExactly"])
         res = run_tlc(wrapper, cfg, workers=2, timeout=600, lib=LIB)
         ck.add_tlc(res, "counterexample search: %s alone against P_DataCapturedExactly" % d)
